@@ -72,6 +72,12 @@ class ExprGen:
         if simple or rng.random() < 0.3:
             # plain names against plain names / dyadic constants: on lattice states both sides are exactly equal now and then
             a, b = rng.choice(names), rng.choice([*names, "0.5", "1.0", "1.5", "2.0"])
+            if rng.random() < 0.4:
+                # a chain over plain operands whose links differ in strictness or direction
+                self.feats.add("chained_compare")
+                c = rng.choice([*names, "0.5", "1.0", "1.5", "2.0"])
+                o1, o2 = rng.sample(["<", "<=", ">", ">="], 2)
+                return f"{a} {o1} {b} {o2} {c}"
             return f"{a} {rng.choice(['<', '<=', '>', '>='])} {b}"
         r = rng.random()
         if r < 0.6:
